@@ -38,6 +38,24 @@ ITER_METHODS = ["iter", "iter_mut", "values", "values_mut", "keys", "into_iter",
 HASH_RE = r"\b(?:Hash(?:Map|Set)|Excluded|JsonFormat1Row)\b"     # the two type aliases of hash containers in scope are checked below
 
 
+def verif_gated(paths):
+    """module files that exist only under the cargo feature `verif` (declared `#[cfg(feature = "verif")] [pub] mod x;` by their
+    parent): verification hooks, not part of the shipped compiler, hence outside the inventory"""
+    gated = set()
+    for f in paths:
+        if os.path.basename(f) not in ("mod.rs", "lib.rs"):
+            continue
+        try:
+            t = open(os.path.join(REPO, f), encoding="utf-8").read()
+        except OSError:
+            continue
+        for m in re.finditer(r'#\[cfg\(feature\s*=\s*"verif"\)\]\s*(?:pub(?:\([a-z]+\))?\s+)?mod\s+([a-z_0-9]+)\s*;', t):
+            d = os.path.dirname(f)
+            gated.add(os.path.join(d, m.group(1) + ".rs"))
+            gated.add(os.path.join(d, m.group(1), "mod.rs"))
+    return gated
+
+
 def files():
     out = []
     for d in SCOPE_DIRS:
@@ -48,7 +66,8 @@ def files():
     for f in SCOPE_FILES:
         if os.path.exists(os.path.join(REPO, f)):
             out.append(f)
-    return sorted(set(out))
+    out = set(out)
+    return sorted(out - verif_gated(out))
 
 
 def blank_comments_and_strings(t):
